@@ -67,6 +67,7 @@
 
 #include "utils/macro.h"
 #include "al/os.h"
+#include "al/verif.h"
 #include "threadpool/threadpool.h"
 #include "threadpool/threadpool_msg_sys.h"
 
@@ -1121,6 +1122,7 @@ tp_shutdown(tp_p tp) {
 		return;
 	if (0 != tp->shutdown)
 		return;
+	LIBLCB_VERIF_YIELD("tp_shutdown.check");
 	tp->shutdown ++;
 	/* Private virtual thread. */
 	tp->pvt->state = TP_THREAD_STATE_STOP;
@@ -1153,6 +1155,7 @@ tp_shutdown_wait(tp_p tp) {
 	for (size_t i = 0; i < tp->s.threads_max; i ++) {
 		if (TP_THREAD_STATE_STOP == tp->threads[i].state)
 			continue;
+		LIBLCB_VERIF_YIELD("tp_shutdown_wait.join");
 		error = pthread_join(tp->threads[i].pt_id, NULL);
 		switch (error) {
 		case 0: /* No error. */
@@ -1285,6 +1288,7 @@ tp_thread_proc(void *data) {
 	}
 
 	tpt->tp->threads_cnt ++;
+	LIBLCB_VERIF_YIELD("tp_thread_proc.starting");
 	tpt->state = TP_THREAD_STATE_RUNNING;
 
 	snprintf(thr_name, sizeof(thr_name), "%s: %zu",
@@ -1333,6 +1337,7 @@ tp_thread_proc(void *data) {
 	pthread_setspecific(tp_tls_key_tpt, NULL);
 	pthread_self_name_set(NULL);
 	memset(&tpt->pt_id, 0x00, sizeof(pthread_t));
+	LIBLCB_VERIF_YIELD("tp_thread_proc.exiting");
 	tpt->state = TP_THREAD_STATE_STOP; /* Reset state on exit. */
 	tpt->tp->threads_cnt --;
 
